@@ -1,0 +1,18 @@
+//go:build verif
+
+// Contracts for the deductive verifier in /verif (govc); comments only.
+package uniformdh
+
+//@ pred pubInv(pub) := pub != nil && (pub.bytes != nil ==> len(pub.bytes) == 192)
+
+//@ func (*PublicKey).SetBytes(pub, pubBytes) (err)
+//@   serves C13 C10
+//@   modifies pub.bytes, pub.publicKey
+//@   ensures [C13:setbytes_len] err == nil <==> len(pubBytes) == 192
+//@   ensures err == nil ==> len(pub.bytes) == 192 && seq(pub.bytes) == seq(pubBytes) && pub.publicKey != nil
+//@   ensures err != nil ==> unchanged(pub.bytes, pub.publicKey)
+
+//@ func (*PublicKey).Bytes(pub) (res, err)
+//@   serves C13 C10
+//@   ensures err == nil ==> len(res) == 192 && seq(res) == seq(pub.bytes)
+//@   ensures err == nil <==> (len(pub.bytes) == 192 && pub.bytes != nil)
